@@ -148,6 +148,11 @@ class _Counter:
                 if on_fail:
                     on_fail()
                 self._failed(what, f["errno"])
+                if f["mode"] == "interrupt":
+                    # the process is being taken down by an exception that unwinds the stack (Ctrl-C, a SIGTERM
+                    # handler calling sys.exit): `finally` blocks and context managers run before it dies, and what
+                    # they leave behind is what the next run finds (seed C18-11)
+                    raise KeyboardInterrupt()
                 code = getattr(errno, f["errno"])
                 raise OSError(code, os.strerror(code))
         try:
@@ -342,7 +347,7 @@ def run_write(write, path, crash_at, pieces, seed=0, fault=None, versions=None, 
                 code = 0
             except BaseException as e:  # noqa
                 fr = impl_frame(e)
-                harness_fault = isinstance(e, OSError) and counter.faulted  # the injected error, or its consequence, came back out
+                harness_fault = isinstance(e, (OSError, KeyboardInterrupt)) and counter.faulted  # the injected error, or its consequence, came back out
                 _send(w, {"trace": counter.trace, "nbytes": counter.nbytes, "obs": obs, "faulted": counter.faulted,
                           "raised": "%s@%s" % (type(e).__name__, fr or "?"), "impl": fr is not None or harness_fault,
                           "message": str(e)[:300], "tb": traceback.format_exc()[-1500:]})
@@ -771,7 +776,8 @@ def reference_texts(write_of, n, tmp, pieces, seed, name=CK, names_out=None):
 
 # =========================================================================== generator
 FAULTS = [{"mode": "sticky", "errno": "ENOSPC"}, {"mode": "sticky", "errno": "EDQUOT"}, {"mode": "once", "errno": "EIO"},
-          {"mode": "once", "errno": "ENOSPC"}, {"mode": "rlimit", "errno": "EFBIG"}, {"mode": "sticky", "errno": "EFBIG"}]
+          {"mode": "once", "errno": "ENOSPC"}, {"mode": "rlimit", "errno": "EFBIG"}, {"mode": "sticky", "errno": "EFBIG"},
+          {"mode": "interrupt", "errno": "KeyboardInterrupt"}, {"mode": "interrupt", "errno": "KeyboardInterrupt"}]
 BUDGET = {"quick": {1: 9000, 2: 2200, 3: 900, 4: 350}, "thorough": {1: 40000, 2: 9000, 3: 2500, 4: 900}}
 
 
